@@ -85,7 +85,9 @@ def check(rep, F, tier, replay=None):
         if p["mode"] == "fold":
             org = ff.Origins(F, fid)
             folds = [c for c in F.calls(fid) if (c.to or "").endswith("::fold") and "Iterator" in (c.to or "")]
-            if len(folds) != 1:
+            if len(folds) == 0:
+                rep.lost("%s no longer builds its input index map with a fold (re-anchor IDX for this purpose)" % p["fn"])
+            elif len(folds) != 1:
                 rep.violation("IDX", p["fn"] + "|fold", "%s: expected one fold building the input index map, found %d" % (p["fn"], len(folds)), {})
             else:
                 o = org.of_operand(folds[0].args[0])
